@@ -76,6 +76,20 @@ type (
 	}
 )
 
+// Validate validates the OAuth2ValidatorSpec: one of the two ways to check a
+// token must be configured, and the introspection end point must be usable.
+func (spec *OAuth2ValidatorSpec) Validate() error {
+	if spec.TokenIntrospect == nil && spec.JWT == nil {
+		return fmt.Errorf("oauth2: one of tokenIntrospect and jwt is required")
+	}
+	if spec.TokenIntrospect != nil {
+		if _, err := http.NewRequest(http.MethodPost, spec.TokenIntrospect.EndPoint, nil); err != nil {
+			return fmt.Errorf("oauth2: invalid endPoint: %v", err)
+		}
+	}
+	return nil
+}
+
 // NewOAuth2Validator creates a new OAuth2 validator
 func NewOAuth2Validator(spec *OAuth2ValidatorSpec) *OAuth2Validator {
 	if spec.JWT != nil {
